@@ -48,7 +48,18 @@ def correspond(ctx):
 
 
 def search(ctx, broken, res0):
+    """failing-input search: first the schemes the broken correspondence names (more configurations, every profile incl. the
+    big ones, every database checked on its own for uniform padded tables even when no equal-size partner was found), then
+    all schemes"""
     res = Result()
+    if sk.named_schemes(res0):
+        for scale in (1, 2):
+            for c in sk.targeted_cases(ctx, res0, scale=scale):
+                res.evaluations += 1
+                c2 = so.same_size_variant(ctx.rng, c)
+                so.c05_pair(res, c, c2 if c2 is not None else c)
+                if res.violations:
+                    return res
     _, prs = pairs(ctx, ctx.pick(10, 25), 4)
     for c1, c2 in prs:
         res.evaluations += 1
